@@ -50,15 +50,25 @@ func (w *ResponseWriter) WriteHeader(code int) {
 // Flush implements the standard http.Flusher interface.
 func (w *ResponseWriter) Flush() {
 	if flusher, ok := w.Origin.(http.Flusher); ok {
+		w.markFlushed()
 		flusher.Flush()
+	}
+}
+
+// markFlushed records the implicit 200 that net/http sends when a response is flushed before any status was written.
+func (w *ResponseWriter) markFlushed() {
+	if w.Status == 0 {
+		w.WriteHeader(http.StatusOK)
 	}
 }
 
 // FlushError attempts to invoke FlushError() of the standard http.ResponseWriter.
 func (w *ResponseWriter) FlushError() error {
 	if flusher, ok := w.Origin.(interface{ FlushError() error }); ok {
+		w.markFlushed()
 		return flusher.FlushError()
 	} else if flusher, ok := w.Origin.(http.Flusher); ok {
+		w.markFlushed()
 		flusher.Flush()
 	}
 	return nil
